@@ -101,10 +101,11 @@ Definition gcrashes (c : gcircuit) : bool :=
   negb fixed_scalar_chain && gvec c && existsb (fun e => let g := gkey c (gsrc e) in
                               gadd_delay c g && Nat.eqb (units c g) 1 && shared_chain c (ggroup c g)) (gedges c).
 
-(* slots of the group of a (merged) source variable in the order the code enumerates them (see Ring.gslots) *)
+(* slots of the group of a (merged) source variable in the order the code enumerates them (see Ring.gslots): by target (merged) node,
+   then by graph edge = (delayed?, with spread? [since D114]) in first-appearance order, then the order the user wrote them *)
 Definition g_is_delayed (e : gedge) : bool := match gd e with Some _ => true | None => false end.
 Definition gslots' (c : gcircuit) (g : nat) : list gedge :=
-  flat_map (fun b => concat (map snd (bucket (fun e => if g_is_delayed e then 1 else 0)%nat (snd b))))
+  flat_map (fun b => concat (map snd (bucket (fun e => (if g_is_delayed e then 2 else 0) + (if has_spread e then 1 else 0))%nat (snd b))))
            (bucket (fun e => gkey c (gtgt e)) (ggroup c g)).
 (* chain input: the code gathers index(var, src_indices) where src_indices[j] is the source unit of member slot j (and takes
    the whole vector when src_indices == range(n_src_var), which is the same gather; fix D45 removed the `sorted` that made
@@ -249,5 +250,24 @@ Definition g_no_plain_in_spread_group (c : gcircuit) : bool :=
   forallb (fun e => match gd e with Some (_, None) => negb (group_spread c (gkey c (gsrc e))) | _ => true end) (gedges c).
 Definition g_plain_ge2 (c : gcircuit) : bool :=
   Nat.ltb 0 (gdde c) || forallb (fun e => match gd e with Some (_, None) => Nat.leb 2 (plain_steps c e) | _ => true end) (gedges c).
+(* D115 (open; adaptive step sizes only, where a plain delay is a past() term: the DDE branch of _add_edge_buffer).  vectorize=True: the
+   branch writes `index(buffered, sidx) = index(past(var, d), sidx)` — slot number = SOURCE UNIT instead of the slot's own position — and
+   declares `buffered` with one entry per slot.  It is right only when the spread-less slots of a merged source variable are exactly its
+   units 0..U-1 in this order; otherwise: a (1,) array where the edge equation expects a scalar (ValueError at the first call), an index out
+   of range, or slots that are never written.  Not modelled (the adaptive solvers are outside this model); the guard delimits the class for
+   the adaptive correspondence stream.  fixed_dde_slots: false = the code as it is (fixes/proposed_fix_C11_mixed_adaptive.diff). *)
+Definition fixed_dde_slots : bool := true.
+Definition same_class (a b : node) : bool := Bool.eqb (nsrc a) (nsrc b) && Nat.eqb (ncls a) (ncls b).
+Definition unit_of (c : gcircuit) (i : nat) : nat := length (filter (same_class (gnode c i)) (firstn i (gnodes c))).
+Fixpoint list_nat_eqb (a b : list nat) : bool :=
+  match a, b with [], [] => true | x :: a', y :: b' => Nat.eqb x y && list_nat_eqb a' b' | _, _ => false end.
+Definition g_dde_slots_aligned (c : gcircuit) : bool :=
+  fixed_dde_slots || negb (gvec c) ||
+  forallb (fun e => match gd e with
+                    | Some (_, None) =>
+                        let g := gkey c (gsrc e) in
+                        list_nat_eqb (map (fun e' => unit_of c (gsrc e')) (filter (fun e' => negb (has_spread e')) (gslots' c g)))
+                                     (seq 0 (units c g))
+                    | _ => true end) (gedges c).
 Definition gguards (c : gcircuit) : bool :=
   g_all_spread c && g_no_undelayed_kernel c && g_above_step c && g_rates_exact c && g_steps_exact c && g_no_scalar_shared_chain c.
